@@ -1295,6 +1295,9 @@ func (E *Engine) libResultType(key string) types.Type {
 		if sig != nil && sig.Results().Len() == 1 {
 			return sig.Results().At(0).Type()
 		}
+		if sig != nil && sig.Results().Len() > 1 {
+			return sig.Results() // a tuple: the ghost binds name_0, name_1, ...
+		}
 	}
 	return nil
 }
